@@ -125,6 +125,9 @@ class _BaseAttribute(ABC):
     def default_value(self):
         if self._default_value is None:
             self._default_value = self.type.default_value(self.elemsize)
+        elif self.elemsize>1 and np.ndim(self._default_value)==0:
+            # a scalar custom default stands for a vector filled with it (as the dense storage does)
+            self._default_value = Vec([self._default_value]*self.elemsize)
         return self._default_value
 
     def _check_default_value_type(self):
